@@ -310,7 +310,7 @@ def load_known_findings():
 
 
 def main():
-    import props
+    import props, claims
     args = sys.argv[1:]
     if not args:
         print(__doc__)
@@ -446,7 +446,7 @@ def main():
     for s in samples:
         s.pop("case_line", None)
     ev = {
-        "property_id": prop, "tier": "thorough" if tier == "thorough" else "quick", "seed": seed, "level": "proof",
+        "property_id": prop, "tier": "thorough" if tier == "thorough" else "quick", "seed": seed, "level": claims.CLAIMS[prop][0],
         "coverage": {
             "obligations": pst["obligations"], "discharged": pst["discharged"],
             "checker_cmd": "cd /verif/coq && coq_makefile -f _CoqProject -o Makefile <files> && make -j16  (coqc 8.16.1, full .vo); then coqc Properties/%s.v for Print Assumptions" % prop,
